@@ -405,7 +405,7 @@ def _is_child_tuple_field(cn: str, fn: str) -> bool:
 
 # --------------------------------------------------------------------------- strategies
 
-PLAIN_STRS = ["", "a", "b", "ab", "abc", "x y", "1", "0", "None", "True"]
+PLAIN_STRS = ["", "a", "b", "ab", "abc", "x y", "1", "0", "None", "True", "x\\y"]
 
 
 def st_value(kind: str, strs: Any = None):
@@ -651,10 +651,14 @@ class TreeGen:
         odd = st.fixed_dictionaries({"c": st.just("Odd"), "o": self.origin(),
                                      "k": st.fixed_dictionaries({"self": opt, "node": opt, "arg": opt, "args": items, "o": opt, "i": opt})})
         opts += [odd, odd.map(dict)]
-        cb = st.fixed_dictionaries({"c": st.just("CollBlock"), "o": self.origin(), "k": st.fixed_dictionaries({"stmts": items})})
+        cb = st.fixed_dictionaries({"c": st.just("CollBlock"), "o": self.origin(),
+                                    "k": st.fixed_dictionaries({"stmts": items, "result": opt})})
         fn = st.fixed_dictionaries({"c": st.just("Fn"), "o": self.origin(),
                                     "k": st.fixed_dictionaries({"body": cb, "alt": st.one_of(st.none(), cb)})})
         opts += [fn, cb]
+        nck = st.fixed_dictionaries({"c": st.just("NcKids"), "o": self.origin(),
+                                     "k": st.fixed_dictionaries({"kid": opt, "trivia": items, "note": opt})})
+        opts += [nck]
         la = st.one_of(self.leaf_of("LeafA"), self.leaf_of("SubLeafA"))
         ntbox = st.fixed_dictionaries({"c": st.just("NtBox"), "o": self.origin(),
                                        "k": st.fixed_dictionaries({"kids": st.lists(la, max_size=3), "one": st.one_of(st.none(), la)})})
